@@ -14,7 +14,9 @@ let cfg_of = function
   | _ -> None
 
 let trusted phase = function
-  | "A" -> Some (if phase = 0 then ["d0"; "d1"] else ["d0"])
+  (* the trusted set is the replay of the device log: phase 1 appends Revoke(d1); phase 2 rewinds the log to
+     [Trust d0; Trust d1] (cutting off Trust d2 and Revoke d1) and appends a new device *)
+  | "A" -> Some (if phase = 0 then ["d0"; "d1"; "d2"] else if phase = 1 then ["d0"; "d2"] else ["d0"; "d1"; "c"])
   | "B" -> Some ["bk"]
   | _ -> None
 
@@ -30,6 +32,7 @@ let request_of cred : (string, string * string, string) auth_request =
   | "nohdr" -> r None (TokSig ("d0", "m"))
   | "unknown" -> r (Some "A") (TokSig ("unk", "m"))
   | "revoked" -> r (Some "A") (TokSig ("d1", "m"))
+  | "dropped" -> r (Some "A") (TokSig ("d2", "m"))
   | "otherbytes" -> r (Some "A") (TokSig ("d0", "m'"))
   | "otheracct" -> r (Some "A") (TokSig ("bk", "m"))
   | "toB" -> r (Some "B") (TokSig ("d0", "m"))
